@@ -897,7 +897,7 @@ MATS3 = [
 ]
 MATS4 = [
     [[3.0, -1.0, 0.0, 0.0], [-1.0, 3.0, -1.0, 0.0], [0.0, -1.0, 3.0, -1.0], [0.0, 0.0, -1.0, 3.0]],     # 1x4 mesh
-    [[7.0, 6.0, 3.0, 6.0], [6.0, 12.0, 6.0, 4.0], [3.0, 6.0, 7.0, 8.0], [6.0, 4.0, 8.0, 15.0]],        # Z^T Z of a 5x4 integer Z, correlated columns (smallest eigenvalue 0.126)
+    [[8.0, 6.0, 3.0, 6.0], [6.0, 13.0, 6.0, 4.0], [3.0, 6.0, 8.0, 8.0], [6.0, 4.0, 8.0, 16.0]],        # Z^T Z + I of a 5x4 integer Z: correlated columns, condition number 25
 ]
 
 BODIES = {"case_solver": body_solver, "case_unconstrained": body_unconstrained, "case_inversion": body_inversion}
